@@ -5,6 +5,8 @@
 From PowHsm Require Import Model.Verify.
 From PowHsm Require Import Proofs.C05.
 From PowHsm Require Import Proofs.C08.
+From PowHsm Require Import Gen.Src.
+From PowHsm Require Import Proofs.SrcEquivCert.
 Open Scope N_scope.
 
 (* the powHSM message is accepted exactly when it has the header, exactly the documented length (12 + 115) and an ASCII platform; its fields are the slices at the offsets computed from the generated layout *)
@@ -119,5 +121,33 @@ Proof. exact (@pubkeys_hash_order_independent). Qed.
 Theorem C08_sorted_keys_sorted :
   forall ks : list opkey, keys_sorted (map k_path (sorted_keys ks)).
 Proof. exact (@sorted_keys_sorted). Qed.
+
+(* the chain validation the verify commands rely on, as translated from the source text, is the model's (Ledger certificates) *)
+Theorem C08_source_walk_is_model_v1 :
+  forall (link_ok : celem -> certifier -> bool) (value_of tweak_of : celem -> pr pv)
+           (root_pv : pv) (call_method : string -> pv -> list pv -> pr pv) 
+           (c : cert) (fuel : nat),
+         oracle_ok link_ok value_of tweak_of root_pv call_method ->
+         c_version c = 1%Z ->
+         str_named c ->
+         targets_resolve link_ok c ->
+         (S (Datatypes.length (c_elems c)) <= fuel)%nat ->
+         src_HSMCertificate__validate_and_get_values fuel call_method (cert_pv c) root_pv =
+         spec_results link_ok value_of tweak_of c (c_targets c) [].
+Proof. exact (@src_validate_v1_ok). Qed.
+
+(* (SGX certificates) *)
+Theorem C08_source_walk_is_model_v2 :
+  forall (link_ok : celem -> certifier -> bool) (value_of tweak_of : celem -> pr pv)
+           (root_pv : pv) (call_method : string -> pv -> list pv -> pr pv) 
+           (c : cert) (fuel : nat),
+         oracle_ok link_ok value_of tweak_of root_pv call_method ->
+         c_version c = 2%Z ->
+         str_named c ->
+         targets_resolve link_ok c ->
+         (S (Datatypes.length (c_elems c)) <= fuel)%nat ->
+         src_HSMCertificateV2__validate_and_get_values fuel call_method (cert_pv c) root_pv =
+         spec_results link_ok value_of tweak_of c (c_targets c) [].
+Proof. exact (@src_validate_v2_ok). Qed.
 
 Example C08_nonvacuous : True. Proof. exact I. Qed. (* Module Examples of Proofs/C08.v (vm_compute with the SHA-256 model): genuine current / legacy / reordered / SGX triples accepted; extra key, missing key, other BTC key, extended or truncated messages, non-self-valid root rejected *)
